@@ -85,8 +85,8 @@ namespace gtry::hlim {
 				bool doAddAsTerm = true;
 				if (Node_Constant *constNode = dynamic_cast<Node_Constant*>(top.signal.node)) {
 					const auto &value = constNode->getValue();
-					HCL_ASSERT(value.size() == 1);
-					if (value.get(sim::DefaultConfig::DEFINED, 0)) {
+					// Only single bit constants are boolean constants. Anything else (e.g. the multi bit constant selector of a mux) is an opaque term.
+					if (value.size() == 1 && value.get(sim::DefaultConfig::DEFINED, 0)) {
 						if (value.get(sim::DefaultConfig::VALUE, 0) ^ top.negated) {
 							// The term is ANDed with a constant one, we can just ignore this
 							doAddAsTerm = false;
